@@ -31,6 +31,7 @@ func init() {
 		ID: "C02",
 		Rules: []RuleSpec{
 			{"stage-machine", "reset and jump are well-formed stage machines: unknown stage is an error; each stage ends by recording the label of the next clause as its last write and persists that layer before falling through; no value captured before the switch from a field a stage changes is used after that stage; the tail removes the marker; start-up resumes from it", ruleStageMachine},
+			{"resume-path", "no stage deletes data that Blockchain.init reads before it dispatches on the stage marker, and in-memory module state established inside one stage clause is also established on the common path (so a run resumed from a later stage has it)", ruleResumePath},
 			{"backend-tx", "every BoltDB/LevelDB mutation happens inside a transaction; a change set is one transaction committed on the success path", ruleBackendTx},
 			{"swap-order", "the flush installs the tempstore before the lower write and restores the lower store only after it returned, under the write lock", ruleSwapOrder},
 			{"block-single-publish", "a block reaches the shared DAO through exactly one PersistPrivate of layers created in storeBlock, the tip pointer is written to one of them, and nothing else in the closure of storeBlock mutates bc.dao", ruleSinglePublish},
